@@ -180,8 +180,8 @@ def run(ctx):
     else:
         ctx.model_check("Tdc", "Tdc_quick.cfg", note="N<=5, every argsort order among ties")
         ctx.model_check("Tdc", "Tdc_thorough.cfg", note="N<=6, stable sort", timeout=3000)
-        ctx.model_check("Tdc", "Tdc_sim.cfg", note="N=7 simulation under timeout", simulate="num=400000",
-                        depth=20, timeout=240, seed=ctx.seed)
+        ctx.model_check("Tdc", "Tdc_sim.cfg", note="N=7 simulation under timeout", simulate="num=20000",
+                        depth=20, timeout=600, seed=ctx.seed)
     ctx.model_check("Tdc", "Tdc_mut1.cfg", expect_violation="OpEqualsDef", note="seeded fault: +1 omitted")
     ctx.model_check("Tdc", "Tdc_mut2.cfg", expect_violation="OpEqualsDef", note="seeded fault: group FDR at first member")
     r = ctx.model_check("Tdc", "Tdc_cov.cfg", coverage=True, note="action coverage (N<=4)")
